@@ -400,6 +400,14 @@ def parse_mir(text):
                 funcs.setdefault("__errors__", []).append((head, str(e)))
             i = j + 1
             continue
+        mo = re.match(r"(?:const|static|static mut) (.*?) = (const .*);$", line)
+        if mo and not line.startswith(" "):
+            k = find_top(mo.group(1), ": ")
+            if k >= 0:
+                f = Function(mo.group(1)[:k].strip(), [], mo.group(1)[k + 2:].strip(), kind="const")
+                f.blocks[0] = [("assign", Place(0, []), ("use", parse_operand(mo.group(2)))), ("return",)]
+                f.locals[0] = f.ret
+                funcs[f.name] = f
         i += 1
     return funcs
 
